@@ -43,6 +43,22 @@ DIRECTED = [
     'NW=1,2 L,L;1@0:|2@1:g1|3@2:w1;a1^i,s2,s3,w2^b3,g1',
 ]
 
+# stale central-queue hint + every pool thread inside a nested wait.  ThreadPool::centralQueueNonEmpty_ is documented
+# as allowed to be wrong (a worker's clear after a failed dequeue may overwrite a producer's set); the only repair is the
+# time-out probe of a PARKED worker.  A thread inside wait() never parks, so termination of a nesting must not depend on
+# the hint once no worker is idle: recursive fork-join (each level owns a task set and waits - parallel_invoke / merge
+# sort shape) blocks every pool thread in a nested wait.  Random schedules almost never leave the hint stale at the
+# moment the last worker blocks, so the schedule class is directed (pure schedule restrictions, see drv_nested.cpp):
+# STALE=K holds a worker in front of its hint-clearing store until the schedule call of task K has returned (its clear
+# then hides K), ^c: not before every worker is held there, ^hK: not before the hint is stale (or K began).  Then the
+# pool threads are given (through their locality rings: nothing re-sets the hint) tasks that wait on the sets of the
+# hidden tasks, and main waits as well: time-outs are allowed and do not help because nobody is parked.  Waiters of
+# both kinds (TaskSet::wait, ConcurrentTaskSet::wait) on main, ConcurrentTaskSet::wait on the pool threads.
+STALE_HINT = [
+    'STALE=2 NW=1 L,T;1@1:|2@1:|3@2:w1;s1,s2^c,b2.3^h2,w2,w1',
+    'STALE=2 NW=1 L,L;1@1:|2@1:|3@2:w1;s1,s2^c,b2.3^h2,w2,w1',
+    'STALE=3 NW=2 L,L,L;1@1:|2@1:|3@2:|4@3:w1|5@3:w2;s1,s2^c,s3,b3.4.5^h3,w3,w1,w2',
+]
 
 # stack inversion (open finding): Y nests and waits, X waits on Y's set / gets the future whose body waits
 INVERSION = [
@@ -128,9 +144,11 @@ def normalise(src, dst):
     """one driver note per line (field n), chk = 1 where the projection belongs to the line; library
     notes (Inl*) and futex return values are dropped; the tear-down after main's program is dropped
     (a Deadlock reported there is the controller's join race, not the program's)"""
-    info = {'lines': 0, 'stalled': 0, 'deadlocks': 0, 'teardown_deadlocks': 0, 'executions': 0, 'ended': 0}
+    info = {'lines': 0, 'stalled': 0, 'deadlocks': 0, 'teardown_deadlocks': 0, 'executions': 0, 'ended': 0, 'last': None,
+            'stuck': None}
     with open(dst, 'w') as out:
         skipping = False
+        last_s = None
         for line in open(src):
             try:
                 ev = json.loads(line)
@@ -142,11 +160,13 @@ def normalise(src, dst):
                     info['teardown_deadlocks'] += 1
                     continue
                 info['stalled' if e == 'Stalled' else 'deadlocks'] += 1
+                info['stuck'] = dict(info['last'] or {}, e=e, s=ev.get('s') or last_s)
                 out.write(json.dumps({'e': e}) + '\n')
                 continue
             if e in ('Header', 'Reset', 'End'):
                 if e == 'Reset':
                     info['executions'] += 1
+                    info['last'] = {'p': ev.get('p'), 'nw': ev.get('nw'), 'tag': ev.get('tag')}
                     skipping = False
                 if e == 'End':
                     info['ended'] += 1
@@ -155,6 +175,7 @@ def normalise(src, dst):
             if skipping:
                 continue
             notes = [r for r in ev.get('r', []) if isinstance(r, list) and r and r[0] in TAGS]
+            last_s = ev.get('s', last_s)
             base = {'e': e, 't': ev.get('t', ''), 's': ev.get('s', {'alive': 0})}
             if not notes:
                 out.write(json.dumps(dict(base, n=[], chk=1), separators=(',', ':')) + '\n')
@@ -185,14 +206,23 @@ def run_batch(ctx, exe, progs, label, runs, seed, nws='0,1,2', pct=3, maxsteps=3
             continue
         info = normalise(raw, tr)
         ctx.cov.setdefault('batches', []).append(dict(info, label=label, attempt=attempt))
-        res = ctx.validate(SPEC, 'NestedTrace.tla', 'NestedTrace.cfg', tr, WHAT + ' [' + label + ']',
+        what = WHAT + ' [' + label + ']'
+        if info['stuck'] and info['stuck'].get('p'):
+            # name the program that did not terminate and the state it spins in
+            st = info['stuck']
+            s = st.get('s') or {}
+            what = '%s [%s: program %r on a %s-thread pool never completes (%s)%s]' % (
+                WHAT, label, progs[st['p'] - 1], st.get('nw'), 'step bound' if st['e'] == 'Stalled' else 'deadlock',
+                ('; a task sits in the central queue while the pool\'s queue hint reads empty: no thread inside a wait() looks into the queue'
+                 if s.get('cq', 0) > 0 and s.get('flag') == 0 else ''))
+        res = ctx.validate(SPEC, 'NestedTrace.tla', 'NestedTrace.cfg', tr, what,
                            executions=info['ended'], label=label, report=final)
         os.remove(raw)
         stalled = info['stalled'] + info['deadlocks']
         if stalled and final and not res.violation:
             path = ctx.save_replay('%s-stalled.txt' % ctx.prop, 'batch %s: an execution did not terminate\n%s' % (
                 label, ctx._trace_context(tr, info['lines'])))
-            ctx.violation('stalled:' + label, WHAT + ': execution never completes [' + label + ']', path)
+            ctx.violation('stalled:' + label, what + ': execution never completes', path)
         if not (res.violation or not tot or stalled):
             return tr, info
     return tr, None
@@ -235,9 +265,12 @@ def run(ctx):
         three = any(op.startswith('p') and op.count('.') >= 3 for part in p.split(';')[1:] for t in part.split('|')
                     for op in t.split(':')[-1].split(','))
         gen.append('R=%d NW=%s %s' % (4 if thorough else 3, '0,2' if three else rng.choice(['0,1,2', '1,2', '1,2,3' if thorough else '1,2']), p))
-    tr, info = run_batch(ctx, exe, progs + gen, 'programs', 3, ctx.seed)
+    # directed: stale queue hint while every pool thread is inside a nested wait.  LAST in the batch: an execution that
+    # does not terminate ends the driver process
+    stale = ['R=%d %s' % (24 if thorough else 8, p) for p in STALE_HINT]
+    tr, info = run_batch(ctx, exe, progs + gen + stale, 'programs', 3, ctx.seed)
     ctx.sample_trace(tr, 10, skip=30)
-    ctx.sample({'random_programs': gen[:4], 'directed': DIRECTED[:2]})
+    ctx.sample({'random_programs': gen[:4], 'directed': DIRECTED[:2], 'stale_hint': STALE_HINT})
 
     # the open finding (stack inversion): model and real code, reported under its own signature ------
     inv = ctx.tlc(SPEC, 'MCNested.tla', 'MC_nest_inversion.cfg', workers=4, extra=nogen, count=False,
@@ -262,7 +295,10 @@ def run(ctx):
         raise vlib.ToolError('MC_nest_inversion: unexpected %s' % inv.violation)
     ctx.assumptions += [
         'the pool is modelled by its tiers (central queue, locality rings, steal rings) and by who polls which tier; '
-        'FIFO order inside a tier, the lossy central-queue hint and the spin counters are abstracted (failed polls are stutter steps)',
+        'FIFO order inside a tier, the lossy central-queue hint and the spin counters are abstracted (failed polls are stutter steps); '
+        'on the real code the stale-hint state (hint reads empty, task queued) is produced by directed schedules while every pool '
+        'thread is inside a nested wait, and NestedTrace.tla requires every thread inside a wait to attempt every tier class '
+        '(central queue, rings, steal rings) once per polling round while a task is queued there (WaitersPollQueuedWork)',
         'time-outs are present (a parked worker always wakes again) but do not help: a thread inside wait() never parks',
         'placed scheduling pushes to a steal ring exactly when it claimed a sleeper (the spinner threshold is over-approximated)',
         'programs respect the documented contracts: a TaskSet is used by one thread, no wait() concurrent with schedule() on a set, '
